@@ -189,7 +189,7 @@ class Report:
             w = k.get('where')
             if w:
                 try:
-                    if not eval(w, {'__builtins__': {'abs': abs, 'len': len, 'min': min, 'max': max, 'str': str, 'int': int, 'float': float, 'any': any, 'all': all, 'isinstance': isinstance}}, dict(inputs)):
+                    if not eval(w, {'__builtins__': {'abs': abs, 'len': len, 'min': min, 'max': max, 'str': str, 'int': int, 'float': float, 'any': any, 'all': all, 'isinstance': isinstance}}, dict(inputs, inputs=dict(inputs))):
                         continue
                 except Exception:
                     continue
